@@ -20,6 +20,7 @@ import (
 	"encoding/json"
 	"fmt"
 	"math"
+	"net/url"
 	"regexp"
 	"sort"
 	"strings"
@@ -537,6 +538,7 @@ type schemaOutcome struct {
 	vs       []evid.Violation
 	accepted bool
 	finding  *finding
+	entry    *abi.Entry // the converted entry when accepted
 }
 
 func judgeSchemaText(target, name, schema string) (o schemaOutcome) {
@@ -562,6 +564,7 @@ func judgeSchemaText(target, name, schema string) (o schemaOutcome) {
 		o.vs = append(o.vs, evid.V("result-well-formed", "nil entry with nil error for %s", short(schema)))
 		return o
 	}
+	o.entry = entry
 	if holes(entry.Inputs) || holes(entry.Outputs) {
 		o.vs = append(o.vs, evid.V("result-well-formed", "converted entry contains a nil parameter: %s", short(schema)))
 		return o
@@ -592,10 +595,11 @@ func passesMeta(name, schema string) (ok bool) {
 	c := fftypes.NewFFISchemaCompiler()
 	v := &ffi2abi.ParamValidator{}
 	c.RegisterExtension(v.GetExtensionName(), v.GetMetaSchema(), v)
-	if err := c.AddResource(name, strings.NewReader(schema)); err != nil {
+	u := strings.ReplaceAll(url.PathEscape(name), ":", "%3A") // a neutral spelling of the name as a resource URL
+	if err := c.AddResource(u, strings.NewReader(schema)); err != nil {
 		return false
 	}
-	_, err := c.Compile(name)
+	_, err := c.Compile(u)
 	return err == nil
 }
 
@@ -613,7 +617,51 @@ func genIdent(rt *rapid.T, label string) string {
 	return string(first) + rest
 }
 
+// Names are arbitrary strings in the ABI JSON format; the property says they are preserved.
+// wideAlphabet: Unicode letters of several scripts, white space, every ASCII punctuation
+// character (the URL-reserved ones included) and pieces that look like percent-escapes.
+var wideAlphabet = []string{"a", "b", "Z", "0", "7", "_", "$", "\u00e9", "\u00f6", "\u00df", "\u6570", "\u91cf", "\u0436", "\u03a9", "\U0001F600", "e\u0301",
+	" ", "\t", "#", "%", "/", "?", ";", ",", "&", "=", "+", ":", "@", "!", "*", "'", "(", ")", "[", "]", "{", "}", "<", ">", "|", "\\", "^", "`", "\"", "~", ".", "-",
+	"%41", "%2F", "%25", "%zz", "%3A", "%20", "..", "//", "\u202e", "\u00a0"}
+
+var wideSamples = []string{"unit price", "100%", "ok?", "needed,available", "a/b", "gr\u00f6\u00dfe", "\u6570\u91cf", "a:b", "1:2", ":", "Foo:bar", "a#b", "#", "%41", "%", "..", ".", "a/../b",
+	"a b%20c", "http://x/y", "a;b", "a&b=c+d", "?", "/", "x y z", "\u00e9:x", "<T>", "a[0]", "{k}", "a|b", "a\\b", "caf\u00e9", "na\u00efve name", "~", "-", "a.b", "q?#f"}
+
+// genName draws a parameter / member name: an identifier most of the time, a wide name otherwise.
+func genName(rt *rapid.T, label string) string {
+	switch rapid.IntRange(0, 9).Draw(rt, label+".shape") {
+	case 0, 1:
+		n := rapid.IntRange(1, 6).Draw(rt, label+".wide.n")
+		var sb strings.Builder
+		for i := 0; i < n; i++ {
+			sb.WriteString(rapid.SampledFrom(wideAlphabet).Draw(rt, label+".wide.c"))
+		}
+		return sb.String()
+	case 2:
+		return rapid.SampledFrom(wideSamples).Draw(rt, label+".wide.sample")
+	case 3: // an identifier with one wide piece inside
+		id := genIdent(rt, label)
+		pos := rapid.IntRange(0, len(id)).Draw(rt, label+".wide.pos")
+		return id[:pos] + rapid.SampledFrom(wideAlphabet).Draw(rt, label+".wide.c") + id[pos:]
+	}
+	return genIdent(rt, label)
+}
+
+func isIdentName(s string) bool {
+	for i := 0; i < len(s); i++ {
+		c := s[i]
+		if !(c >= 'a' && c <= 'z' || c >= 'A' && c <= 'Z' || c >= '0' && c <= '9' || c == '_' || c == '$') {
+			return false
+		}
+	}
+	return true
+}
+
 func distinctNames(rt *rapid.T, label string, n int, allowEmpty bool) []string {
+	return distinctNamesWith(rt, label, n, allowEmpty, genName)
+}
+
+func distinctNamesWith(rt *rapid.T, label string, n int, allowEmpty bool, draw func(*rapid.T, string) string) []string {
 	seen := map[string]bool{}
 	out := make([]string, 0, n)
 	for i := 0; i < n; i++ {
@@ -621,7 +669,7 @@ func distinctNames(rt *rapid.T, label string, n int, allowEmpty bool) []string {
 			out = append(out, "")
 			continue
 		}
-		name := genIdent(rt, fmt.Sprintf("%s.%d", label, i))
+		name := draw(rt, fmt.Sprintf("%s.%d", label, i))
 		for seen[name] {
 			name += fmt.Sprint(i)
 		}
@@ -715,7 +763,12 @@ func genParams(rt *rapid.T, label string, maxN int, depth int) []T {
 
 func genABI(rt *rapid.T) ABICase {
 	n := rapid.IntRange(1, 4).Draw(rt, "entries")
-	names := distinctNames(rt, "entry", n, false)
+	names := distinctNamesWith(rt, "entry", n, false, func(rt *rapid.T, l string) string {
+		if rapid.IntRange(0, 9).Draw(rt, l+".wideEntry") == 0 {
+			return genName(rt, l)
+		}
+		return genIdent(rt, l)
+	})
 	var c ABICase
 	for i, name := range names {
 		label := fmt.Sprintf("e%d", i)
@@ -756,12 +809,23 @@ func genABI(rt *rapid.T) ABICase {
 
 type abiStats struct {
 	tupleInTuple, tupleIn2D, tupleIn1D, anyTuple, indexed, unnamed, internal bool
+	wideTop, wideMember, escapedTop                                          bool
 	maxDepth                                                                 int
 }
 
 func (s *abiStats) visit(t T, depth int, insideTuple bool) {
 	if t.Indexed {
 		s.indexed = true
+	}
+	if !isIdentName(t.Name) {
+		if insideTuple {
+			s.wideMember = true
+		} else {
+			s.wideTop = true
+			if url.PathEscape(t.Name) != t.Name {
+				s.escapedTop = true
+			}
+		}
 	}
 	if t.Name == "" {
 		s.unnamed = true
@@ -1202,6 +1266,9 @@ func TestCheck(t *testing.T) {
 		add(s.unnamed, "abi:unnamed-parameter")
 		add(s.internal, "abi:internalType")
 		add(s.maxDepth >= 3, "abi:tuple-depth>=3")
+		add(s.wideTop, "abi:top-level-name-beyond-identifiers")
+		add(s.escapedTop, "abi:top-level-name-changed-by-URL-escaping")
+		add(s.wideMember, "abi:member-name-beyond-identifiers")
 		seenType := map[string]bool{}
 		for _, e := range c.ABI {
 			if !seenType[e.Type] {
@@ -1213,7 +1280,7 @@ func TestCheck(t *testing.T) {
 	})
 
 	rec.Rapid(t, "schema-mutants", rec.N(4000, 30000), func(rt *rapid.T) {
-		name := genIdent(rt, "name")
+		name := genName(rt, "name")
 		p := genParam(rt, "p", name, 2)
 		for try := 0; try < 3 && !strings.HasPrefix(p.Type, "tuple") && !strings.HasSuffix(p.Type, "]"); try++ {
 			// most of the code behind the meta-schema deals with tuples and arrays: prefer them
@@ -1246,7 +1313,7 @@ func TestCheck(t *testing.T) {
 
 	rec.Rapid(t, "schema-wellformed", rec.N(300, 3000), func(rt *rapid.T) {
 		// unmutated schemas: the analyser must find nothing and the conversion must succeed (guards the oracle against over-reporting)
-		name := genIdent(rt, "name")
+		name := genName(rt, "name")
 		p := genParam(rt, "p", name, 3)
 		text := marshal(schemaFor(p, nil))
 		target := rapid.SampledFrom(targets).Draw(rt, "target")
